@@ -123,7 +123,7 @@ static size_t emit(int i, uint8_t *out) {   /* after measure(i); out has room fo
 		else { out[0] = (uint8_t)((x->nc << 6) | (x->fwd << 5) | (x->tag & 0x1f)); out[1] = (uint8_t)lenfield; }
 	}
 	x->out_hdr = h; o = h;
-	if (x->leaf) { if (pl) memcpy(out + o, x->p, pl); o += pl; }
+	if (x->leaf) { if (pl && x->p) memcpy(out + o, x->p, pl); else if (pl) memset(out + o, 0, pl); o += pl; }
 	else for (c = x->first; c >= 0; c = mn[c].next) o += emit(c, out + o);
 	return o;
 }
@@ -205,7 +205,7 @@ static int mutate_tree(size_t MaxSize) {
 	case 12: case 13: {         /* make an element empty and the last thing in the input */
 		int a;
 		if ((i = pick_real()) < 0) return 0;
-		mn[i].leaf = 1; mn[i].first = mn[i].last = -1; mn[i].n = below(4) == 0 ? 1 : 0;
+		mn[i].leaf = 1; mn[i].first = mn[i].last = -1; mn[i].n = below(4) == 0 ? 1 : 0; mn[i].p = (const uint8_t *)"\001";
 		for (a = i; a > 0; a = mn[a].parent) while (mn[a].next >= 0) { int d = mn[a].next; unlink_node(d); mn[d].parent = -2; }
 		return 1; }
 	case 14: {                  /* integer-like leaf values */
